@@ -233,4 +233,26 @@ theorem updates_below_active_ignored (a : Auth) (srv : Nat) (typ ver : String) (
   · simp [handleUpdate, revert_none h]
   · simp [handleUpdate, revert_below h hlt]
 
+/-! ### observations outside the listed clauses (both reproduced on the real client by the harness) -/
+
+/-- A resource first watched while a fallback server is active is subscribed on that server only
+    (`watchResource` uses `xdsChannelToUse`); the revert to the primary unsubscribes it there and nothing
+    subscribes it on the primary: it stays watched but is requested from no server. -/
+theorem watch_during_fallback_is_lost_on_revert :
+    let a := Auth.run (Auth.init 2 [false, false])
+      [.watch ⟨"T", "r1"⟩ 1, .failure 0 false, .watch ⟨"T", "r2"⟩ 2, .update 0 1 "T" "v1" [("r1", .ok "c")]]
+    a.active = some 0 ∧ (lookup a.res ⟨"T", "r2"⟩).map (fun r => (r.watchers, r.chans)) = some ([2], []) := by
+  decide
+
+/-- A failure report of a server whose channel the authority has already released (it was queued behind the
+    update that reverted to the primary) still triggers a fallback: the authority ends up on server 2 while the
+    primary is healthy (known finding F20). -/
+theorem stale_failure_report_triggers_fallback :
+    let a := Auth.run (Auth.init 3 [false, false, false])
+      [.watch ⟨"T", "r1"⟩ 1, .watch ⟨"T", "r2"⟩ 2, .failure 0 false,
+       .update 0 1 "T" "v1" [("r1", .ok "c")],   -- the primary is back: revert, server 1 released
+       .failure 1 false]                          -- the report server 1's channel had already queued
+    a.active = some 2 ∧ a.opened = [0, 2] := by
+  decide
+
 end GrpcProofs.C44
